@@ -6,6 +6,7 @@ From PV Require Export Model.DetectorX.
 From PV Require Export Model.CodecX.
 From PV Require Export Model.PayloadX.
 From PV Require Export Model.JobGroupX.
+From PV Require Export Model.TransformX.
 
 Definition dispatch (f : Z) (x : sx) : sx :=
   match f with
@@ -23,5 +24,7 @@ Definition dispatch (f : Z) (x : sx) : sx :=
   | 1500 => x_sf x | 1501 => x_codec x
   | 1600 => x_scenario x | 1601 => PayloadX.x_handle_params x
   | 1900 => x_jobgroup_run x
+  | 1100 => x_tmat x | 1101 => x_inverse x | 1102 => x_decompose x | 1103 => x_flatten x | 1104 => x_regroup x
+  | 1105 => x_perm_util x | 1106 => x_update_adjacent x | 1107 => x_close x
   | _ => L []
   end%Z.
